@@ -48,7 +48,7 @@ def build_rtl_harness(design):
     files = design_files(design)
     lenient = DESIGNS[design][1]
     flags = ["--cc", "--exe", "--build", "-j", "4", "--public-flat-rw", "-fno-inline", "--top-module", "hex", "--prefix", "Vhex",
-             "-CFLAGS", "-O1 -std=c++17"] + (["-Wno-WIDTH", "-Wno-fatal"] if lenient else [])
+             "-CFLAGS", "-O1 -std=c++17", "-Wno-fatal"] + (["-Wno-WIDTH"] if lenient else [])
     key = C.file_hash(files + [HARNESS], " ".join(flags) + design)
     name = f"h_rtl_{design}"
     exe = os.path.join(C.BUILD, f"{name}-{key}")
